@@ -697,6 +697,19 @@ class InstrMixin:
 
     def i_Range(self, ctx, ins, st):
         x = self.val(ctx, ins['x'])
+        if self.ty.kind(ins['xtype']) == 'map' and is_term(x):
+            # ghost set of the keys this iteration has produced so far (visited(m, k) in invariants): empty at the start
+            cid = ('rangevis', ctx['frame'], ins['id'])
+            v0 = T.V('emptyset', T.AIB)
+            if 'emptyset' not in self.facted:
+                self.facted.add('emptyset')
+                j = T.fresh_name('j')
+                self.hyps.append(T.forall([(j, T.INT)], T.not_(T.select(v0, T.V(j)))))
+            self.store(st, PtrV('cell', cid), v0)
+            self.rangevis[cid] = x
+            dom0 = T.select(self.heap_get(st, self.map_names(ins['xtype'])[0], T.ARR(T.INT, T.AIB)), x)
+            self.setreg(ctx, ins, ('rangeiter', x, ins['xtype'], cid, dom0))
+            return
         self.setreg(ctx, ins, ('rangeiter', x, ins['xtype']))
 
     def i_Next(self, ctx, ins, st):
@@ -705,10 +718,20 @@ class InstrMixin:
         if ins.get('isstring'):
             self.setreg(ctx, ins, TupleV([ok, T.fresh('stridx'), T.fresh('rune')]))
             return
-        _, m, mt = it
+        m, mt = it[1], it[2]
         un, t = self.ty.under(mt)
         k = T.fresh('mapkey')
         self.add_hyp(T.implies(ok, self.map_has(st, m, mt, k)))
+        if len(it) >= 5 and it[3] in st.cells and is_term(st.cells[it[3]]):
+            # every key is produced at most once; when the iteration ends every key of the (unchanged) map was produced
+            vis = st.cells[it[3]]
+            self.add_hyp(T.implies(T.and_(st.pc, ok), T.not_(T.select(vis, k))))
+            dom = T.select(self.heap_get(st, self.map_names(mt)[0], T.ARR(T.INT, T.AIB)), m)
+            if dom == it[4]:
+                q = T.fresh_name('vk')
+                self.add_hyp(T.implies(T.and_(st.pc, T.not_(ok)),
+                                       T.forall([(q, T.INT)], T.implies(T.select(dom, T.V(q)), T.select(vis, T.V(q))))))
+            self.store(st, PtrV('cell', it[3]), T.ite(ok, T.store(vis, k, T.TRUE), vis))
         v = self.map_lookup(st, m, mt, k)
         self.setreg(ctx, ins, TupleV([ok, k, v]))
 
